@@ -628,7 +628,15 @@ pub fn build(prog: &Program) -> Result<Built, Infeasible> {
     // value a function leaves in the frame-pointer register when it uses it as a scratch register,
     // chosen so that the frame-pointer technique fails on it as the walker sources document
     let junk = match a {
-        Arch::Amd64 => dummy,                        // [rbp], [rbp+8] = 0: bp' < sp' rejects every offset
+        // [rbp], [rbp+8] = 0: bp' < sp' rejects every offset. In every other style (not on Windows, where the
+        // frame-pointer technique probes 16 offsets) the value is the stack pointer of the caller of the first scanned
+        // frame (a caller with an empty frame: rbp = rsp), which that scan forwards on the boundary
+        // "rbp >= caller's sp"
+        Arch::Amd64 => match (0..d.saturating_sub(1)).find(|&i| tech(i) == Tech::Scan) {
+            // (a frame reached by the frame-pointer technique needs its caller's rbp at or above its own sp: not with this value)
+            Some(js) if prog.style % 2 == 0 && v.os != Os::Windows && (0..d).all(|i| tech(i) != Tech::Fp) => sp[js + 1],
+            _ => dummy,
+        },
         Arch::Arm if v.os == Os::Ios => 4,           // non-zero (0 is a forced stop) and unreadable
         _ => 0,                                      // x86: unreadable; arm64: pc 0 is rejected; arm/mips: no fp technique
     };
@@ -695,6 +703,12 @@ pub fn build(prog: &Program) -> Result<Built, Infeasible> {
     for i in 0..d {
         if tech(i) == Tech::Scan && size[i] >= 6 {
             words[widx(sp[i]) + 1] = if i == 1 { faddr(i) - 0x800 } else { faddr(i) + 0x800 };
+        }
+    }
+    if a == Arch::Amd64 && junk != dummy {
+        // [junk] must not pass for a saved frame pointer (the technique demands bp' >= sp' = junk + 16)
+        if words[widx(junk)] >= junk + 2 * p {
+            return Err("the junk frame pointer would be followed by the frame-pointer technique");
         }
     }
     let bytes = words_to_bytes(&words, p);
